@@ -347,6 +347,12 @@ class ConditionLike:
         else:
             spec_key, spec_val = next(iter(spec.items()))  # single-item dict
 
+        if not isinstance(spec_key, str):
+            raise MalformedConditionLikeSpec(
+                f"Condition-like specification key must be a string, but found: "
+                f"{spec_key!r}."
+            )
+
         spec_key_split = [i.lower() for i in spec_key.split(".")]
         spec_key_split_len = len(spec_key_split)
 
